@@ -9,7 +9,6 @@ PROP = "C08"
 LEVEL = "other"
 UNDECIDED = [
     "linearizability over all interleavings (needs exploration of schedules)",
-    "bijectivity of Location::of over 2^32 indices (bit arithmetic: solver or exhaustive run, other families)",
 ]
 ASSUMPTIONS = [
     "MIR at opt-level 0 preserves source control flow",
